@@ -19,9 +19,10 @@ CLAIMS = {
  "C02": ("Theorem is_subset_sound for ALL shapes a and well-formed b, plus the is_superset / is_superset_checked corollaries (with the KF1 carve-out inherited "
          "from inference, refuted without it). Correspondence on all level-1 pairs and random related deep pairs; oracle: witness documents of the left "
          "shape checked against the right shape for every accepted pair.", "6/C02"),
- "C03": ("Theorems: every well-formed shape is accepted by itself; a shape inferred from ONE document accepts it in both forms. The general statement is false of the faithful "
-         "model and this is proved (C03_kf2_refuted: [true,null,1]); PARTIAL beyond n=1: decided by correspondence + the property statement evaluated on the implementation for "
-         "thousands of sequences; failures are the known class KF2 exactly when the merged shape contains a OneOf (extracted decidable predicate), anything else is reported.", "6/C03"),
+ "C03": ("Theorems: every well-formed shape is accepted by itself; for ANY number of sources, whenever the merged shape contains no OneOf every source is accepted in all three forms "
+         "(is_subset of its own shape, is_superset, is_superset_checked) — proved via transitivity of is_subset and 'merger dominates its operands' on the OneOf-free fragment. The general "
+         "statement is false of the faithful model and this is proved (C03_kf2_refuted: [true,null,1]); the complement of the theorem's hypothesis is exactly the known class KF2 "
+         "(extracted decidable predicate oneof_free), so at run time any failure outside it is reported as a violation.", "6/C03"),
  "C06": ("Theorem paths_agree: for every duplicate-free document the text-path model and the value-path model (serde_json Map + From<&Value>) give the same outcome; "
          "visitor corollary; witness that duplicates legitimately differ. Correspondence of both paths (incl. JsonVisitor identity) on ~35k documents; oracle: "
          "from_str(text) == From<&Value>(serde_json(text)) on thousands of random renderings. Known finding KF5 (escaped member names).", "6/C06"),
@@ -47,7 +48,7 @@ CLAIMS = {
  "C10": ("Six theorems prove reflexivity, optional widening, null-in-optional and the similar laws for ALL well-formed shapes; model tied to /repo by "
          "all 103041 level-1 pairs plus random deep related pairs; statements re-evaluated on the implementation's own answers.", "6/C10"),
 }
-PARTIAL = {"C12": "Partial by nature: allocator, stack and wall-clock are runtime; the theorems bound call counts, allocations are measured.", "C03": "Partial: theorem for n = 1 and reflexivity; n > 1 relies on correspondence + oracle with the KF2 class decided by oneof_free.", "C09": "Partial: the theorem covers the pairwise core and the 'd is the last source' case; semantic absorption for d in the middle of h is not a theorem."}
+PARTIAL = {"C12": "Partial by nature: allocator, stack and wall-clock are runtime; the theorems bound call counts, allocations are measured.", "C03": "Partial: the theorem covers exactly the complement of the known class KF2 (merged shape OneOf-free); inside KF2 the property is refuted by witness.", "C09": "Partial: the theorem covers the pairwise core and the 'd is the last source' case; semantic absorption for d in the middle of h is not a theorem."}
 
 def chk(pid):
     text, ref = CLAIMS[pid]
